@@ -8,6 +8,7 @@
 (*    t/d/          directory D        t/d/f  t/d/h   files DF, DH          *)
 (*    t/e/          directory E (empty)                                     *)
 (*    t/l1          symbolic link in T        t/d/l2  symbolic link in D    *)
+(*                                            (or t/d/g, named like t/g)    *)
 (* A link has a target node (a file, a directory, the other link, or        *)
 (* nothing = absent) and a flavour (absolute / relative) that only the      *)
 (* concretisation sees.                                                     *)
@@ -21,7 +22,8 @@ EXTENDS Naturals, Sequences, FiniteSets, TLC
 Files == {"F", "G", "DF", "DH"}
 Dirs == {"T", "D", "E"}
 
-\* fs: [f, g, d, df, dh, e : BOOLEAN, l1, l2 : target]   target \in Files \cup Dirs \cup {"L2", "none"}
+\* fs: [f, g, d, df, dh, e : BOOLEAN, l1, l2 : target, l2g : BOOLEAN]   target \in Files \cup Dirs \cup {"L2", "none"}
+\* l2g: the link in D is called "g" (like the file t/g) instead of "l2", so that stripping can make a LINK collide
 Present(fs, n) ==
   CASE n = "F" -> fs.f [] n = "G" -> fs.g [] n = "D" -> fs.d [] n = "DF" -> fs.d /\ fs.df
     [] n = "DH" -> fs.d /\ fs.dh [] n = "E" -> fs.e [] n = "T" -> TRUE [] OTHER -> FALSE
@@ -42,7 +44,7 @@ Children(fs, dir) ==
                     \cup {<<"l1", "link", ResolveL1(fs)>> : x \in {1} \cap (IF fs.l1 # "none" THEN {1} ELSE {})}
     [] dir = "D" -> {<<"f", "file", "DF">> : x \in {1} \cap (IF fs.df THEN {1} ELSE {})}
                     \cup {<<"h", "file", "DH">> : x \in {1} \cap (IF fs.dh THEN {1} ELSE {})}
-                    \cup {<<"l2", "link", ResolveL2(fs)>> : x \in {1} \cap (IF fs.l2 # "none" THEN {1} ELSE {})}
+                    \cup {<<IF fs.l2g THEN "g" ELSE "l2", "link", ResolveL2(fs)>> : x \in {1} \cap (IF fs.l2 # "none" THEN {1} ELSE {})}
     [] OTHER -> {}
 
 RECURSIVE Walk(_, _, _, _)
@@ -64,6 +66,7 @@ ArgNode(fs, arg) ==
     [] arg = <<"t", "d">>      -> IF fs.d THEN "D" ELSE "none"
     [] arg = <<"t", "e">>      -> IF fs.e THEN "E" ELSE "none"
     [] arg = <<"t", "f">>      -> IF fs.f THEN "F" ELSE "none"
+    [] arg = <<"t", "g">>      -> IF fs.g THEN "G" ELSE "none"
     [] arg = <<"t", "l1">>     -> ResolveL1(fs)
     [] OTHER -> "none"
 
